@@ -60,18 +60,22 @@ package generator
 //@   ensures-assumed [C01:A-FRAGMENT] atomFails(result[0]) == !holds(box(profile.CountRule, count))
 
 //@ func GenerateDatatype(datatype profile.DatatypeRule, iriExpander *misc.IriExpander) []SimpleRegoResult
+//@   ensures [C14:trace-node-is-the-evaluated-node] len(result) >= 1 ==> result[0].TraceNode == datatype.Variable.Name
 //@   ensures [C01:single-result] len(result) == 1 && result == snoc(empty(Seq_S_generator_SimpleRegoResult), result[0])
 //@   ensures-assumed [C01:A-FRAGMENT] atomFails(result[0]) == !holds(box(profile.DatatypeRule, datatype))
 
 //@ func GenerateNumericComparison(num profile.NumericRule, iriExpander *misc.IriExpander) []SimpleRegoResult
+//@   ensures [C14:trace-node-is-the-evaluated-node] len(result) >= 1 ==> result[0].TraceNode == num.Variable.Name
 //@   ensures [C01:single-result] len(result) == 1 && result == snoc(empty(Seq_S_generator_SimpleRegoResult), result[0])
 //@   ensures-assumed [C01:A-FRAGMENT] atomFails(result[0]) == !holds(box(profile.NumericRule, num))
 
 //@ func GeneratePattern(pattern profile.PatternRule, iriExpander *misc.IriExpander) []SimpleRegoResult
+//@   ensures [C14:trace-node-is-the-evaluated-node] len(result) >= 1 ==> result[0].TraceNode == pattern.Variable.Name
 //@   ensures [C01:single-result] len(result) == 1 && result == snoc(empty(Seq_S_generator_SimpleRegoResult), result[0])
 //@   ensures-assumed [C01:A-FRAGMENT] atomFails(result[0]) == !holds(box(profile.PatternRule, pattern))
 
 //@ func GeneratePropertyComparison(comparison profile.PropertyComparisonRule, iriExpander *misc.IriExpander) []SimpleRegoResult
+//@   ensures [C14:trace-node-is-the-evaluated-node] len(result) >= 1 ==> result[0].TraceNode == comparison.Variable.Name
 //@   ensures [C01:single-result] len(result) == 1 && result == snoc(empty(Seq_S_generator_SimpleRegoResult), result[0])
 //@   ensures-assumed [C01:A-FRAGMENT] atomFails(result[0]) == !holds(box(profile.PropertyComparisonRule, comparison))
 
@@ -80,30 +84,36 @@ package generator
 //@   ensures-assumed [C01:A-FRAGMENT] atomFails(result[0]) == !holds(box(profile.RegoRule, rule))
 
 //@ func GenerateScalarIntersectSetRule(containsSome profile.ScalarSetRule, iriExpander *misc.IriExpander) []SimpleRegoResult
+//@   ensures [C14:trace-node-is-the-evaluated-node] len(result) >= 1 ==> result[0].TraceNode == containsSome.Variable.Name
 //@   ensures [C02:one-value-per-reached-node] len(result) == 1 && len(result[0].PathRules) == 1 && result[0].PathRules[0] == propSetF(box(path.PropertyPath, containsSome.Path), containsSome.Variable.Name, ref(iriExpander))
 //@   ensures [C01:single-result] len(result) == 1 && result == snoc(empty(Seq_S_generator_SimpleRegoResult), result[0])
 //@   ensures-assumed [C01:A-FRAGMENT] atomFails(result[0]) == !holds(box(profile.ScalarSetRule, containsSome))
 
 //@ func GenerateScalarSubSetRule(containsAll profile.ScalarSetRule, iriExpander *misc.IriExpander) []SimpleRegoResult
+//@   ensures [C14:trace-node-is-the-evaluated-node] len(result) >= 1 ==> result[0].TraceNode == containsAll.Variable.Name
 //@   ensures [C02:one-value-per-reached-node] len(result) == 1 && len(result[0].PathRules) == 1 && result[0].PathRules[0] == propSetF(box(path.PropertyPath, containsAll.Path), containsAll.Variable.Name, ref(iriExpander))
 //@   ensures [C01:single-result] len(result) == 1 && result == snoc(empty(Seq_S_generator_SimpleRegoResult), result[0])
 //@   ensures-assumed [C01:A-FRAGMENT] atomFails(result[0]) == !holds(box(profile.ScalarSetRule, containsAll))
 
 //@ func GenerateScalarSuperSetRule(in profile.ScalarSetRule, iriExpander *misc.IriExpander) []SimpleRegoResult
+//@   ensures [C14:trace-node-is-the-evaluated-node] len(result) >= 1 ==> result[0].TraceNode == in.Variable.Name
 //@   ensures [C02:one-value-per-reached-node] len(result) == 1 && len(result[0].PathRules) == 1 && result[0].PathRules[0] == propSetF(box(path.PropertyPath, in.Path), in.Variable.Name, ref(iriExpander))
 //@   ensures [C01:single-result] len(result) == 1 && result == snoc(empty(Seq_S_generator_SimpleRegoResult), result[0])
 //@   ensures-assumed [C01:A-FRAGMENT] atomFails(result[0]) == !holds(box(profile.ScalarSetRule, in))
 
 //@ func GenerateUniqueValues(uniqueValues profile.UniqueValuesRule, iriExpander *misc.IriExpander) []SimpleRegoResult
+//@   ensures [C14:trace-node-is-the-evaluated-node] len(result) >= 1 ==> result[0].TraceNode == uniqueValues.Variable.Name
 //@   verify [C07]
 //@   ensures [C01:single-result] len(result) == 1 && result == snoc(empty(Seq_S_generator_SimpleRegoResult), result[0])
 //@   ensures-assumed [C01:A-FRAGMENT] atomFails(result[0]) == !holds(box(profile.UniqueValuesRule, uniqueValues))
 
 //@ func generateCountRule(count profile.CountRule, condition string, iriExpander *misc.IriExpander) []SimpleRegoResult
+//@   ensures [C14:trace-node-is-the-evaluated-node] len(result) >= 1 ==> result[0].TraceNode == count.Variable.Name
 //@   ensures [C02:one-value-per-reached-node] len(result) == 1 && len(result[0].PathRules) == 1 && result[0].PathRules[0] == propSetF(box(path.PropertyPath, count.Path), count.Variable.Name, ref(iriExpander))
 //@   ensures [C01:single-result] len(result) == 1 && result == snoc(empty(Seq_S_generator_SimpleRegoResult), result[0])
 
 //@ func generateNumericRule(num profile.NumericRule, rule string, op string, iriExpander *misc.IriExpander) []SimpleRegoResult
+//@   ensures [C14:trace-node-is-the-evaluated-node] len(result) >= 1 ==> result[0].TraceNode == num.Variable.Name
 //@   ensures [C01:single-result] len(result) == 1 && result == snoc(empty(Seq_S_generator_SimpleRegoResult), result[0])
 
 //@ func generateNested(exp profile.NestedExpression, iriExpander *misc.IriExpander) []GeneratedRegoResult
